@@ -129,6 +129,7 @@ type gen struct {
 	r     *vh.Rng
 	rep   *vh.Report
 	items []item
+	known map[string]vh.Finding
 }
 
 func (g *gen) add(kind, line, goR string, nontrivial bool) {
@@ -424,11 +425,21 @@ func (g *gen) fmtIRI(s string, ascii bool) {
 		}
 	}
 	if ascii {
-		for _, c := range []byte(o) {
-			if c >= 0x80 {
-				g.rep.Count("note:formatIRI-ascii-leaves-latin1")
-				break
+		g.asciiOnly("ttl.fmt iri 1 "+vh.XS(s), o)
+	}
+}
+
+// asciiOnly: the ASCII option of the term formatter promises ASCII-only output (FormatTermASCII).
+func (g *gen) asciiOnly(op, o string) {
+	for _, c := range []byte(o) {
+		if c >= 0x80 {
+			if f, ok := g.known["turtle-ascii-latin1"]; ok {
+				g.rep.Add(vh.Case{Kind: "known", Key: f.Key, Op: op, Detail: f.What})
+				g.rep.Count("known:" + f.Key)
+			} else {
+				g.violation(op, fmt.Sprintf("ASCII mode wrote a byte >= 0x80: %q", o))
 			}
+			return
 		}
 	}
 }
@@ -436,6 +447,9 @@ func (g *gen) fmtIRI(s string, ascii bool) {
 func (g *gen) fmtLit(s string, ascii bool) {
 	o := turtle.VerifFormatLiteralLexicalForm(s, ascii)
 	g.add("fmt-lit", fmt.Sprintf("ttl.fmt lit %s %s", vh.B01(ascii), vh.XS(s)), vh.XS(o), len(o) != len(s)+2)
+	if ascii {
+		g.asciiOnly("ttl.fmt lit 1 "+vh.XS(s), o)
+	}
 	rest := vh.Pick(g.r, []string{"", " .", "@en .", "^^<a:b> .", " ;", "\n"})
 	for _, pkg := range []string{"turtle", "trig"} {
 		in := o + rest
@@ -769,10 +783,12 @@ func main() {
 	seed := vh.SeedFromEnv()
 	rep := vh.NewReport(*prop, *tier, seed, "token layer of Turtle/TriG: grammar-directed tokens of the 7 producer kinds with trailers, byte mutations and truncations (eof / injected reader error), unstructured strings over per-kind hot alphabets, single-rune probes at every scanner position; formatter inputs over hot alphabets around every escaping rule (local names starting/ending with '.', '-', digits, containing '%', ':', '~', non-PN_CHARS Unicode); non-trivial = producer accepted the input (tok), formatter changed its input (fmt), datatype recognised (bare)")
 	g := &gen{r: vh.NewRng(seed), rep: rep}
-	if _, err := vh.LoadFindings(*findings); err != nil {
+	fs, err := vh.LoadFindings(*findings)
+	if err != nil {
 		fmt.Fprintln(os.Stderr, "findings:", err)
 		os.Exit(2)
 	}
+	g.known = vh.KnownKeys(fs, *prop)
 	var prints []printCase
 
 	runLine := func(l string) {
@@ -861,6 +877,9 @@ func main() {
 	}
 
 	if *nomodel {
+		if rep.Cases == nil {
+			rep.Cases = []vh.Case{} // "cases": [] rather than null for ./check
+		}
 		if err := rep.Write(*out); err != nil {
 			fmt.Fprintln(os.Stderr, err)
 			os.Exit(2)
@@ -918,6 +937,9 @@ func main() {
 					Detail: fmt.Sprintf("C08: printed form %q (%s) of value %q read back as %s", in, p.line, p.vals, got)})
 			}
 		}
+	}
+	if rep.Cases == nil {
+		rep.Cases = []vh.Case{} // "cases": [] rather than null for ./check
 	}
 	if err := rep.Write(*out); err != nil {
 		fmt.Fprintln(os.Stderr, err)
